@@ -145,9 +145,25 @@ def assignEpochs : List (List (List (List String)) × Bool) → List (List (List
   `check-cat <n> <buffer>*n <flat buffer>`                → `ok` | `fail pad-not-masked`
   `rbepoch <b> <perm> <n> <buffer>*n`                     → `ok <nb> <flat buffer>*nb`
   `isperm <n> <perm>`                                     → `true` | `false`
+  `check-rows <w> (<toks> <mask> <toks> <mask>)*`         → `ok` | `fail pad-not-masked`   (`catRowOK` per (window row, row the model was given))
   `sizes <n> <b> <len>*`                                  → `ok` | `fail batch-size`   (`sizesOK`, C20_batch_lengths)
 -/
+def checkRows (w : Nat) : List String → Option Bool
+  | [] => some true
+  | ot :: om :: gt :: gm :: rest => do
+    let ot ← parseToks ot
+    let om ← parseMask om
+    let gt ← parseToks gt
+    let gm ← parseMask gm
+    let r ← checkRows w rest
+    pure (catRowOK w (ot, om) (gt, gm) && r)
+  | _ => none
+
 def handle : List String → Option String
+  | "check-rows" :: w :: rest => do
+    let w ← w.toNat?
+    let ok ← checkRows w rest
+    pure (if ok then "ok" else "fail pad-not-masked")
   | "sizes" :: n :: b :: rest => do
     let n ← n.toNat?
     let b ← b.toNat?
